@@ -781,3 +781,46 @@ def rule_receiver_sites(prog, rep, tier, anchors=("ast_utils.annotate_ancestry",
                 rep.holds("RECEIVER-SITES", inst, loc(prog, c), "names every receiver get_function_type recognises")
     if n == 0:
         raise AnalysisError("RECEIVER-SITES: no test naming a receiver found in the location machinery")
+
+
+# ---------------------------------------------------------------------------- RETURN-CONST (C04)
+def rule_return_const(prog, rep, tier, writer="emit.argparse_function", reader="emitter_utils._parse_return"):
+    """RETURN-CONST (C04): the argparse writer puts the returned default into the `return (argument_parser, <default>)` tuple in two
+    ways: parsed as an expression, or - when it is back-tick quoted code - as a *string constant* that still wears its ticks
+    (`set_value(default)`).  The reader of that tuple must take a constant by its value: rendering the node back to source
+    (`to_code`) gives the literal with its quotes, and the default comes back as `'```(1, 2)```'` instead of ```` ```(1, 2)``` ````."""
+    w = prog.fn(writer)
+    as_const = False
+    for c in ast.walk(w.node):
+        if isinstance(c, ast.Call) and getattr(c.func, "id", getattr(c.func, "attr", None)) == "Return":
+            for x in ast.walk(c):
+                if isinstance(x, ast.Call) and getattr(x.func, "id", getattr(x.func, "attr", None)) == "set_value" and any(
+                        isinstance(k, ast.Constant) and k.value == "default" for a in x.args for k in ast.walk(a)):
+                    as_const = True
+    if not as_const:
+        rep.holds("RETURN-CONST", "%s writes the returned default as an expression only" % writer, loc(prog, w.node), "nothing to unwrap")
+        return
+    r = prog.fn_role(reader, "argparse-return-reader") if hasattr(prog, "fn_role") and not prog.has_fn(reader) else prog.fn(reader)
+    found = False
+    for f in prog.region(r):
+        for d in ast.walk(f.node):
+            if not isinstance(d, ast.Dict):
+                continue
+            for k, v in zip(d.keys, d.values):
+                if not (isinstance(k, ast.Constant) and k.value == "default"):
+                    continue
+                if not any(isinstance(x, ast.Attribute) and x.attr == "elts" for x in ast.walk(v)):
+                    continue
+                found = True
+                by_value = any(isinstance(x, ast.Call) and getattr(x.func, "id", getattr(x.func, "attr", None)) in ("get_value", "literal_eval") for x in ast.walk(v)) \
+                    or any(isinstance(x, ast.Attribute) and x.attr in ("value", "s") and any(isinstance(y, ast.Attribute) and y.attr == "elts" for y in ast.walk(x.value))
+                           for x in ast.walk(v))
+                if by_value:
+                    rep.holds("RETURN-CONST", "%s: default = %s" % (prog.owner_name(f), src(v, 60)), loc(prog, v), "a constant is taken by its value")
+                else:
+                    rep.violation(Finding(
+                        "RETURN-CONST", prog.owner_name(f), "constant-rendered-to-source",
+                        "%s writes a back-tick quoted returned default as a string constant (set_value), and the reader takes the tuple element as %s: for a constant "
+                        "that is the literal with its quotes, so the default comes back with an extra pair of quotes around the ticks" % (writer, src(v, 50)), loc(prog, v)))
+    if not found:
+        raise AnalysisError("RETURN-CONST: the reader of the returned tuple's default was not found in %s" % reader)
